@@ -409,6 +409,7 @@ func RandomLayout(r *rand.Rand, revs int) Layout {
 		l.XRef = append(l.XRef, []string{"table", "stream"}[r.Intn(2)])
 	}
 	l.FontNameRot, l.FontsDirect, l.InlineImages, l.TmScale = r.Intn(3) == 0, r.Intn(3) == 0, r.Intn(3) == 0, r.Intn(4) == 0
+	l.GhostFont = r.Intn(5) == 0
 	return l
 }
 
